@@ -94,9 +94,9 @@ def generate(rng, tier="quick"):
 
 
 def generate_stream_source(rng, tier):
-    tbl = wl.gen_table(rng, max_n=20 if tier == "quick" else 40, index_kinds=("range", "offset", "perm"))
+    tbl = wl.gen_table(rng, max_n=20 if tier == "quick" else 40, index_kinds=("range", "offset", "perm"), unsorted_p=0.12)
     cfg = wl.gen_config(rng, tbl, max_ctx=4, max_tests=2, window_layout="disjoint")
-    fe = rng.pick(("pandas", "numpy", "xarray_obj", "netcdf_obj"))
+    fe = rng.pick(("pandas", "numpy", "netcdf_obj") if tbl.get("unsorted") else ("pandas", "numpy", "xarray_obj", "netcdf_obj"))
     nmsg = sum(len(c["entries"]) for c in cfg["contexts"])
     orders = [list(range(nmsg))]
     for _ in range(rng.randint(1, 2)):
@@ -286,7 +286,7 @@ def execute(scn):
                     c = got[key]
                     covered = sorted(r for r in d["flags"] if r not in d["dup"])
                     for name, src in src_axes.items():
-                        src = a["cols"][key[0]] if name == "data" else src
+                        src = a["cols_ext"][key[0]] if name == "data" else src
                         if src is None or not covered:
                             continue
                         have = getattr(c, name)
